@@ -28,6 +28,9 @@ SeriesClauses(e, o) ==
       \cup (IF OutputsOrdered(o.c2) THEN {} ELSE {"output-timestamps-ordered"})
       \* "within the input's time span"
       \cup (IF OutputsWithin(o.c2, SpanLo(e, o.c1), SpanHi(e, o.c1)) THEN {} ELSE {"output-timestamps-within-input-span"})
+      \* the output reaches the end of the input (otherwise the totals of the series' tail are lost):
+      \* the last output lies in the 1 h window of the last input sample
+      \cup (IF LastWindowHasOutput(o.c1, o.c2, 3600000) THEN {} ELSE {"last-output-in-window-of-last-input-sample"})
 
 Judge(e) ==
     IF e.got.kind # "ok" THEN {"re-downsampling-succeeds"}
@@ -35,9 +38,9 @@ Judge(e) ==
     ELSE UNION { SeriesClauses(e, e.obs[i]) : i \in DOMAIN e.obs }
 
 (* Model conformance (never a verdict): the 1 h chunks are what the transcription makes of   *)
-(* the observed 5 m chunks (loop mode, where the chunk count is known).                      *)
+(* the observed 5 m chunks (loop and chunks mode, where the chunk count is known).                      *)
 Drift(e) ==
-    /\ e.got.kind = "ok" /\ e.ok /\ e.aligned /\ e.in.mode = "loop"
+    /\ e.got.kind = "ok" /\ e.ok /\ e.aligned /\ e.in.mode \in {"loop", "chunks"}
     /\ LET o == e.obs[1] IN
        o.c1 # <<>> /\ o.c2 # AlgoAggr(o.c1, 3600000, Min2(e.in.nc2, Len(o.c1)))
 
